@@ -118,7 +118,7 @@ fn variant(rng: &mut Rng, text: &str) -> (String, &'static str) {
         }
         6 => (format!("({text}"), "extra-open-start"),
         _ => {
-            let junk = *rng.pick(&["x", "#b1", "\"str\"", "|q", ";", "; c\n", "\"", "(", "1.5", "|a|"]);
+            let junk = *rng.pick(&["x", "#b1", "\"str\"", "|q", ";", "; c\n", ";\n", ";\nx", "\"", "(", "1.5", "|a|"]);
             (format!("{text} {junk}"), "suffix")
         }
     }
@@ -171,9 +171,9 @@ fn gen_value(rng: &mut Rng, ty: Type, depth: u32, lets: &mut Vec<(String, Type)>
                     let h = format!("{:0>width$}", h, width = (w / 4) as usize);
                     if rng.chance(1, 2) { format!("#x{}", h.to_uppercase()) } else { format!("#x{h}") }
                 }
-                8 => {
+                8 if w <= 64 => {
                     stats.bump("value_form", "(_ bvN w)");
-                    format!("(_ bv{} {w})", v.to_dec_str())
+                    format!("(_ bv{} {w})", v.to_u64().unwrap())
                 }
                 _ => {
                     stats.bump("value_form", "#b");
@@ -200,19 +200,23 @@ fn gen_value(rng: &mut Rng, ty: Type, depth: u32, lets: &mut Vec<(String, Type)>
 
 // ------------------------------------------------------------------------------------------ fake solver (drives get_value / get_unsat_assumptions)
 
-const FAKE_SOLVER: &str = r#"#!/usr/bin/env python3
-import sys, os
-resp = open(os.environ["FAKE_SOLVER_RESPONSES"], encoding="utf-8", errors="surrogateescape").read().split("\x00")
-k = 0
-for line in sys.stdin:
-    s = line.strip()
-    if s.startswith("(exit"):
-        break
-    if s.startswith("(check-sat") or s.startswith("(get-value") or s.startswith("(get-unsat-assumptions"):
-        r = resp[k] if k < len(resp) else "(error \"out of responses\")"
-        k += 1
-        sys.stdout.write(r + "\n")
-        sys.stdout.flush()
+const FAKE_SOLVER: &str = r#"#!/bin/sh
+# scripted solver: every response-producing command is answered with the next line of $FAKE_SOLVER_RESPONSES
+# (byte 0x01 inside a line stands for a line break)
+exec 3< "$FAKE_SOLVER_RESPONSES"
+SOH=$(printf '\001')
+while IFS= read -r line; do
+  case "$line" in
+    "(exit"*) exit 0;;
+    "(check-sat"*|"(get-value"*|"(get-unsat-assumptions"*)
+      if IFS= read -r resp <&3; then
+        case "$resp" in
+          *"$SOH"*) printf '%s\n' "$resp" | tr '\001' '\n';;
+          *) printf '%s\n' "$resp";;
+        esac
+      else echo '(error "out of responses")'; fi;;
+  esac
+done
 "#;
 
 struct Fake {
@@ -236,7 +240,8 @@ impl Fake {
     /// a context whose response-producing commands are answered with `responses` in order
     fn start(&self, responses: &[String]) -> patronus::smt::SmtLibSolverCtx {
         let path = format!("{}/responses", self.dir);
-        std::fs::write(&path, responses.join("\x00")).unwrap();
+        let enc: Vec<String> = responses.iter().map(|r| r.replace('\n', "\x01")).collect();
+        std::fs::write(&path, enc.join("\n") + "\n").unwrap();
         unsafe { std::env::set_var("FAKE_SOLVER_RESPONSES", &path) };
         patronus::smt::BITWUZLA.start(None).expect("start fake solver")
     }
@@ -371,7 +376,7 @@ fn case_cmd(id: &str, ctx: &mut Context, c: &CmdCase, stats: &mut Stats) -> Stri
     format!("(case {id} (kind cmd) (cmd {ctxt}) (st{}) (text {}) (impl {}))", dump_st(ctx, &syms), quote(&text), dump_cmd_res(ctx, &res, stats))
 }
 
-fn case_script(id: &str, ctx: &mut Context, syms: &[ExprRef], lines: &[String], stats: &mut Stats) -> String {
+fn case_script(id: &str, ctx: &mut Context, syms: &[ExprRef], lines: &[String], ncmds: u64, cmds_txt: &str, stats: &mut Stats) -> String {
     let mut st = symtab_of(ctx, syms);
     let data: String = lines.concat();
     let mut inp = Limited { data: data.as_bytes(), pos: 0, eof_reads: 0 };
@@ -404,10 +409,17 @@ fn case_script(id: &str, ctx: &mut Context, syms: &[ExprRef], lines: &[String], 
         }
     }
     let ltxt: String = lines.iter().map(|l| format!(" {}", quote(l))).collect();
-    format!("(case {id} (kind script) (st{}) (lines{ltxt}) (impl{steps}))", dump_st(ctx, syms))
+    format!("(case {id} (kind script) (st{}) (lines{ltxt}) (cmds{cmds_txt}) (ncmds {ncmds}) (impl{steps}))", dump_st(ctx, syms))
 }
 
 pub fn run(args: &Args) {
+    if let Err(m) = guarded(|| run_inner(args)) {
+        eprintln!("C14 harness panicked: {m} @ {}", last_panic_loc());
+        std::process::exit(2);
+    }
+}
+
+fn run_inner(args: &Args) {
     let mut rng = Rng::new(args.seed);
     let mut outf = std::io::BufWriter::new(std::fs::File::create(&args.out).expect("out file"));
     let mut stats = Stats::default();
@@ -441,7 +453,9 @@ pub fn run(args: &Args) {
                 }
                 "script" => {
                     let lines: Vec<String> = c.field("lines").unwrap_or(&[]).iter().map(|l| l.atom().to_string()).collect();
-                    case_script(&id, &mut ctx, &syms, &lines, &mut stats)
+                    let ncmds = c.field("ncmds").map(|n| n[0].num()).unwrap_or(0);
+                    let cmds_txt: String = c.field("cmds").unwrap_or(&[]).iter().map(|x| format!(" {}", sexp_to_string(x))).collect();
+                    case_script(&id, &mut ctx, &syms, &lines, ncmds, &cmds_txt, &mut stats)
                 }
                 "val" => {
                     let text = c.field("text").unwrap()[0].atom().to_string();
@@ -566,7 +580,15 @@ pub fn run(args: &Args) {
                     3 => format!("(({term} {v})) ; trailing"),
                     _ => format!("(({term} {v}))"),
                 };
-                val_queue.push((id, v, response, via));
+                // get_value waits for more lines while the answer has more opening than closing parentheses (it would
+                // block on the scripted solver): such texts go through parse_expr instead
+                let balance: i64 = response.chars().map(|c| if c == '(' { 1 } else if c == ')' { -1 } else { 0 }).sum();
+                if balance > 0 || response.contains('\n') {
+                    let line = case_text(&id, &mut ctx, &[], &v, &format!("value-{via}"), &mut stats);
+                    out.push(&mut stats, line);
+                } else {
+                    val_queue.push((id, v, response, via));
+                }
             }
             "cmd" => {
                 let c = {
@@ -580,6 +602,7 @@ pub fn run(args: &Args) {
             "script" => {
                 // a few commands as the writer prints them, one per line; sometimes cut / with comments and blank lines
                 let mut lines: Vec<String> = vec![];
+                let mut cmds_txt = String::new();
                 let mut pre_syms: Vec<ExprRef> = vec![];
                 {
                     let mut g = Gen::new(&mut ctx, &mut r);
@@ -603,9 +626,11 @@ pub fn run(args: &Args) {
                         }
                         if let Ok(t) = write_cmd(&ctx, &cmd_to_impl(c)) {
                             lines.push(t);
+                            cmds_txt.push_str(&format!(" {}", dump_cmd(&ctx, c).0));
                         }
                     }
                 }
+                let mut ncmds = lines.len() as u64;
                 match r.below(8) {
                     0 => lines.insert(0, "; a comment line\n".to_string()),
                     1 => lines.insert(0, "   \n".to_string()),
@@ -625,6 +650,8 @@ pub fn run(args: &Args) {
                         if let Some(l) = lines.pop() {
                             let (v, _) = variant(&mut r, l.trim_end());
                             lines.push(format!("{v}\n"));
+                            ncmds -= 1;
+                            cmds_txt.clear();
                         }
                     }
                     4 => {
@@ -634,7 +661,10 @@ pub fn run(args: &Args) {
                     }
                     _ => {}
                 }
-                let line = case_script(&id, &mut ctx, &pre_syms, &lines, &mut stats);
+                // for the variants that keep every command intact the originals are recorded (the oracle compares them)
+                // lines as read_line delivers them (a quoted symbol may contain a line break)
+                let lines: Vec<String> = lines.concat().split_inclusive('\n').map(|l| l.to_string()).collect();
+                let line = case_script(&id, &mut ctx, &pre_syms, &lines, ncmds, &cmds_txt, &mut stats);
                 out.push(&mut stats, line);
             }
             _ => {
@@ -655,7 +685,7 @@ pub fn run(args: &Args) {
                     );
                 }
                 let response = match r.below(8) {
-                    0 => format!("({}", items.join(" ")),
+                    0 => format!("(({}) x)", items.join(" ")),
                     1 => format!("{})", items.join(" ")),
                     2 => format!("({})) x", items.join(" ")),
                     _ => format!("({})", items.join(" ")),
@@ -682,6 +712,11 @@ pub fn run(args: &Args) {
                         stats.bump("solver_answer", &format!("{name}:error"));
                         continue;
                     }
+                    let balance: i64 = answer.chars().map(|c| if c == '(' { 1 } else if c == ')' { -1 } else { 0 }).sum();
+                    if balance > 0 {
+                        stats.bump("solver_answer", &format!("{name}:unbalanced"));
+                        continue;
+                    }
                     stats.bump("solver_answer", &format!("{name}:value"));
                     val_queue.push((format!("{id}{name}"), String::new(), answer, format!("solver:{name}")));
                 }
@@ -705,10 +740,20 @@ pub fn run(args: &Args) {
     }
     if !gua_queue.is_empty() {
         let fake = Fake::new(&scratch);
-        for (id, names, response) in gua_queue.iter() {
-            let mut ctx = Context::default();
-            let syms: Vec<ExprRef> = names.iter().map(|(n, w)| ctx.bv_symbol(n, *w)).collect();
-            let line = run_gua(id, &fake, &mut ctx, &syms, response, &mut stats);
+        let mut ctx = Context::default();
+        let names = gua_queue[0].1.clone();
+        let syms: Vec<ExprRef> = names.iter().map(|(n, w)| ctx.bv_symbol(n, *w)).collect();
+        let mut responses = vec![];
+        for (_, _, r) in gua_queue.iter() {
+            responses.push("unsat".to_string());
+            responses.push(r.clone());
+        }
+        let mut sc = fake.start(&responses);
+        for s in syms.iter() {
+            sc.declare_const(&ctx, *s).expect("declare");
+        }
+        for (id, _, response) in gua_queue.iter() {
+            let line = gua_step(id, &mut sc, &mut ctx, &syms, response, &mut stats);
             out.push(&mut stats, line);
         }
     }
@@ -720,12 +765,8 @@ pub fn run(args: &Args) {
     stats.write(&args.out);
 }
 
-fn run_gua(id: &str, fake: &Fake, ctx: &mut Context, syms: &[ExprRef], response: &str, stats: &mut Stats) -> String {
-    let mut sc = fake.start(&["unsat".to_string(), response.to_string()]);
+fn gua_step(id: &str, sc: &mut patronus::smt::SmtLibSolverCtx, ctx: &mut Context, syms: &[ExprRef], response: &str, stats: &mut Stats) -> String {
     let res: Result<Result<Vec<ExprRef>, String>, String> = guarded(|| {
-        for s in syms {
-            sc.declare_const(ctx, *s).map_err(|e| format!("{e}"))?;
-        }
         sc.check_sat().map_err(|e| format!("{e}"))?;
         sc.get_unsat_assumptions(ctx).map_err(|e| format!("{e}"))
     });
@@ -739,4 +780,20 @@ fn run_gua(id: &str, fake: &Fake, ctx: &mut Context, syms: &[ExprRef], response:
     };
     stats.bump("gua_result", match &res { Ok(Ok(_)) => "ok", Ok(Err(_)) => "err", Err(_) => "panic" });
     format!("(case {id} (kind gua) (st{}) (response {}) (impl {r}))", dump_st(ctx, syms), quote(response))
+}
+
+fn run_gua(id: &str, fake: &Fake, ctx: &mut Context, syms: &[ExprRef], response: &str, stats: &mut Stats) -> String {
+    let mut sc = fake.start(&["unsat".to_string(), response.to_string()]);
+    for s in syms {
+        sc.declare_const(ctx, *s).expect("declare");
+    }
+    gua_step(id, &mut sc, ctx, syms, response, stats)
+}
+
+fn sexp_to_string(x: &Sexp) -> String {
+    match x {
+        Sexp::Atom(a) => a.clone(),
+        Sexp::Str(s) => quote(s),
+        Sexp::List(l) => format!("({})", l.iter().map(sexp_to_string).collect::<Vec<_>>().join(" ")),
+    }
 }
